@@ -366,7 +366,7 @@ def h_twins(ctor):
 def conditions(tier):
     q = tier == 'quick'
     conds = []
-    T = 200 if q else 1200
+    T = 200 if q else 450
 
     def add(cid, fn, bounds, **params):
         conds.append(Cond(cid, fn, bounds, D, params, timeout=T, setup=env.live_caches))
